@@ -255,6 +255,31 @@ fn dir_batch_patterns(rng: &mut Rng, idx: usize) -> Prog {
     b.finish(rng)
 }
 
+/// a node rejected by the context-wide size accounting (two legal but huge inputs in one context),
+/// after which the same graph goes on being built: the nodes added afterwards must be typed by
+/// their own operations (the rejected node's id is reused)
+fn dir_after_size_rejection(rng: &mut Rng) -> Prog {
+    let mut b = Pb::new();
+    let st = *rng.pick(&[UINT64, INT64, UINT32]);
+    let huge = array_type(vec![1u64 << 57], UINT64);
+    // a sibling graph of the same context holds the first huge input and is never evaluated
+    let sib = b.p.ctx.create_graph().unwrap();
+    let hi = sib.input(huge.clone()).unwrap();
+    sib.set_output_node(hi).unwrap();
+    sib.finalize().unwrap();
+    // rejected: the total size of the context's inputs would exceed the limit (not logged as an
+    // attempt: the typing model has no size accounting)
+    let r = b.p.g.input(huge);
+    if r.is_ok() { return b.finish(rng); }
+    let n = 2 + rng.below(4);
+    let x = b.input(array_type(vec![n], st));
+    let y = b.input(array_type(vec![n, 2], st));
+    b.add(vec![x.clone()], Operation::Sum(vec![0]));
+    b.add(vec![y, x.clone()], Operation::Matmul);
+    b.add(vec![x.clone(), x], Operation::Add);
+    b.finish(rng)
+}
+
 fn dir_broadcast(rng: &mut Rng) -> Prog {
     let mut b = Pb::new();
     let st = *rng.pick(&ALL_ST);
@@ -735,6 +760,9 @@ pub fn run(tier: &str, seed: u64, out: &mut Out) {
     for i in 0..n_dir {
         let p = match i % 4 { 0 => dir_linear(&mut rng), 1 => dir_broadcast(&mut rng), _ => dir_struct(&mut rng) };
         progs.push((p, "directed"));
+    }
+    for _ in 0..(if tier == "quick" { 2 } else { 8 }) {
+        progs.push((dir_after_size_rejection(&mut rng), "directed"));
     }
     let n_pat = match tier { "thorough" => 28 * 6, "search" => 28 * 12, _ => 28 };
     for i in 0..n_pat {
